@@ -338,7 +338,7 @@ func extractRanges(repo string) error {
 	var sb strings.Builder
 	sb.WriteString("(* GENERATED by srcmodel_ranges from " + rangesRel + " -- do not edit.\n" +
 		"   Methods with receiver p of type pointer-to-T are translated as functions of p_sorted = p.lazyInit().sorted (and q_sorted for a\n" +
-		"   parameter q of that type); errors.New(\"msg: ...\", ...) as the package-level error GoErr \"err_<msg>\";\n" +
+		"   parameter q of that type); errors.New(\"msg: ...\", ...) as the constructor E_err_<msg> of the enumeration go_err (ENil = nil);\n" +
 		"   [2]N arrays as pairs, [][2]N slices as lists of pairs; range loops as structural fixes;\n" +
 		"   c_<T>_lazyInit_src is the whitespace-normalised source text of the method lazyInit of T. *)\n")
 	sb.WriteString("From Coq Require Import List ZArith Bool.\nFrom Coq Require String.\nFrom PB Require Import Base.GoInt Desc.GoPairs.\n" +
@@ -346,7 +346,12 @@ func extractRanges(repo string) error {
 	for _, c := range u.Consts {
 		fmt.Fprintf(&sb, "Definition c_%s : Z := %s.\n", c.Name, c.Value)
 	}
-	sb.WriteString("\n")
+	// the error values: nil and one constructor per error site class (errors.New message up to ':')
+	sb.WriteString("\nInductive go_err := ENil")
+	for _, n := range errOrder {
+		sb.WriteString(" | E_" + n)
+	}
+	sb.WriteString(".\n\n")
 	for _, r := range rangesPinned {
 		fmt.Fprintf(&sb, "Definition c_%s_lazyInit_src : String.string :=\n  %s.\n", r, coqString(pinned[r]))
 	}
